@@ -162,8 +162,10 @@ def check(run: Run) -> None:
     apps = [c for f_ in unit(m, ps) for c in calls_in(f_) if isinstance(c.func, ast.Attribute) and c.func.attr == "append" and isinstance(c.func.value, ast.Subscript)]
     run.check(len(apps) == 1, "C03.R3", ps, ps.node, "lambdas are bucketed by the preceding identifier", f"{len(apps)} bucket appends")
     os_cls = m.find_class("ObjectStream", in_module="func_adl.object_stream")
+    from ..lib import view
+
     for op in ("Select", "SelectMany", "Where"):
-        fi = os_cls.methods.get(op)
+        fi = view(m, os_cls.methods.get(op))
         if fi is None:
             raise AnalysisError(f"anchor vanished: ObjectStream.{op}")
         from ..lib import call_events
